@@ -1003,6 +1003,11 @@ func (g *Gen) Block() error {
 		if err := g.Tx(g.view()); err != nil {
 			return err
 		}
+		for g.chance(0.35) {
+			if err := g.QueryOp(); err != nil {
+				return err
+			}
+		}
 	}
 	govP := 0.08
 	if g.Profile == "gov" || g.Profile == "govdelay" {
@@ -1018,7 +1023,15 @@ func (g *Gen) Block() error {
 			return err
 		}
 	}
-	return g.line("end")
+	if err := g.line("end"); err != nil {
+		return err
+	}
+	for s.Halted == "" && g.chance(0.4) {
+		if err := g.QueryOp(); err != nil {
+			return err
+		}
+	}
+	return nil
 }
 
 func min(a, b int) int {
